@@ -9,6 +9,7 @@ NOT decided: the clause about rotenc_count14 (a relation between a live counter 
 through carries needs the reachable state space; see DESIGN.md observation O1).
 """
 from .. import build, paths
+from . import rot
 from ..ir import AnalysisError
 from ..paths import fmt, ptr_parts, strip_casts, eval_concrete, NoValue
 
@@ -25,10 +26,11 @@ def fields(m):
 
 def run(chk):
     chk.explanation = (
-        "Finite-set evaluation of rotenc_decode's IR: for each of the 16 (last_state, state) pairs the switch "
-        "condition is evaluated exactly, the selected path's stores to internal_count / last_state / count are "
-        "compared with the quadrature relation and the latch rule. This covers every transition from every decoder "
-        "state because the effect on internal_count depends only on the pair. The rotenc_count14 clause is NOT decided.")
+        "rotenc_decode is turned into an exact transition function over ROBDD bit-vectors (all paths, path conditions as "
+        "BDDs, constant tables resolved from their initialisers) and compared with the quadrature relation, the state "
+        "update and the latch rule for all 16 (last_state, state) pairs x all 2^16 counters x all 2^8 latched counts. The "
+        "latch rule is proved under the inductive invariant last_state == 0 -> count == floor(internal_count/4) mod 256, "
+        "which the same obligations re-establish. rotenc_count14 is decided only at rest (Q4).")
     chk.rule("Q1", "effect on internal_count per (last_state, state) pair equals the quadrature relation (+1 cw, -1 ccw, 0 otherwise)")
     chk.rule("Q2", "last_state := state on every path; count := floor(internal_count_after / 4) stored exactly when state == 0")
     chk.rule("Q3", "rotenc_count returns the latched count")
@@ -47,115 +49,9 @@ def run(chk):
 
     def fptr(name):
         return paths.mkptr(("arg", 0), F[name][0])
-    ps = paths.enumerate_paths(fn, m)
-    last_ld = None
-    for p in ps:
-        for e in p.events:
-            if e.kind == "load" and e.ptr == fptr("last_state"):
-                last_ld = e.val
-    if last_ld is None:
-        raise AnalysisError("rotenc_decode never loads last_state")
-    n_pairs = 0
-    for last in range(4):
-        for state in range(4):
-            env = {last_ld: last, ("arg", 1): state}
-            sel = []
-            for p in ps:
-                ok = True
-                for c, taken, inst in p.conds:
-                    try:
-                        v = eval_concrete(c, env)
-                    except NoValue:
-                        continue    # depends on more than the pair: both outcomes are possible
-                    if isinstance(taken, bool):
-                        if bool(v) != taken:
-                            ok = False
-                            break
-                    elif taken == "default":
-                        cases = [cv for cv, b in inst["cases"]]
-                        if v in cases:
-                            ok = False
-                            break
-                    elif v != taken:
-                        ok = False
-                        break
-                if ok:
-                    sel.append(p)
-            # several switch cases may share a block: identical effects
-            inst_id = "from %d%d to %d%d" % (last >> 1, last & 1, state >> 1, state & 1)
-            if not sel:
-                chk.unknown("Q1.transition", inst_id, "no path selected")
-                continue
-            n_pairs += 1
-            for p in sel:
-              inst_id = "from %d%d to %d%d%s" % (last >> 1, last & 1, state >> 1, state & 1,
-                                               "" if len(sel) == 1 else " via " + "->".join(b.lstrip("%") for b in p.blocks[1:]))
-              check_pair(chk, fn, p, F, fptr, last, state, inst_id)
-    chk.expect("Q1", "(last_state, state) pairs", n_pairs, 16)
+    rot.check_decode(chk, m, fn, F)
     check_q3(chk, fields)
     check_q4(chk, m, F)
-
-
-def check_pair(chk, fn, p, F, fptr, last, state, inst_id):
-            old_ic = None
-            delta = 0
-            ic_st = [e for e in p.events if e.kind == "store" and e.ptr == fptr("internal_count")]
-            ic_ld = [e for e in p.events if e.kind == "load" and e.ptr == fptr("internal_count")]
-            if ic_st:
-                v = strip_casts(ic_st[-1].val)
-                old = ic_ld[0].val if ic_ld else None
-                bits = F["internal_count"][1] * 8
-                try:
-                    d = (eval_concrete(ic_st[-1].val, {old: 1000}) - 1000) & ((1 << bits) - 1)
-                    delta = d if d < (1 << (bits - 1)) else d - (1 << bits)
-                    d2 = (eval_concrete(ic_st[-1].val, {old: 7}) - 7) & ((1 << bits) - 1)
-                    d2 = d2 if d2 < (1 << (bits - 1)) else d2 - (1 << bits)
-                    if d2 != delta:
-                        delta = None
-                except NoValue:
-                    delta = None
-            want = 1 if (last, state) in CW else -1 if (last, state) in CCW else 0
-            chk.ob("Q1.transition", inst_id, delta == want,
-                   "internal_count changes by %s; quadrature relation says %+d (%s)" %
-                   (delta, want, "clockwise" if want == 1 else "anticlockwise" if want == -1 else "repeat or two-bit jump"),
-                   (ic_st[-1].inst.loc if ic_st else fn.loc), fn.name)
-            # Q2
-            ls = [e for e in p.events if e.kind == "store" and e.ptr == fptr("last_state")]
-            chk.ob("Q2.last-state", inst_id, len(ls) == 1 and strip_casts(ls[0].val) == ("arg", 1),
-                   "last_state := state", (ls[0].inst.loc if ls else fn.loc), fn.name)
-            cs = [e for e in p.events if e.kind == "store" and e.ptr == fptr("count")]
-            if state == 0:
-                ok = len(cs) == 1
-                why = "count is latched when the encoder rests at the detent state"
-                if ok:
-                    e = cs[0]
-                    after = ic_st[-1].val if ic_st else (ic_ld[-1].val if ic_ld else None)
-                    # value must be floor(after / 4) truncated to the count width, for every 16-bit value incl. 'negative' ones
-                    ok2 = True
-                    witness = None
-                    base = ic_ld[0].val if ic_ld else None
-                    bits = F["internal_count"][1] * 8
-                    for oldv in (0, 1, 2, 3, 4, 5, 1023, 1024, 0x7ffe, 0x7fff, 0x8000, 0x8001, 0xfffd, 0xfffe, 0xffff, 0xfffc):
-                        try:
-                            newv = eval_concrete(after, {base: oldv}) & ((1 << bits) - 1) if after is not None else None
-                            got = eval_concrete(e.val, {base: oldv}) & 0xff
-                        except NoValue:
-                            ok2 = None
-                            break
-                        if ((newv >> 2) & 0xff) != got:
-                            ok2, witness = False, (oldv, newv, got)
-                            break
-                    if ok2 is None:
-                        chk.unknown("Q2.latch", inst_id, "latched value %s not evaluable" % fmt(e.val)[:60], e.inst.loc)
-                        return
-                    ok = ok2
-                    if not ok2:
-                        why = ("latched count %d for internal_count %d (0x%04x): must be floor(internal_count / 4) mod 256 = %d"
-                               % (witness[2], witness[1], witness[1], (witness[1] >> 2) & 0xff))
-                chk.ob("Q2.latch", inst_id, ok, why, (cs[0].inst.loc if cs else fn.loc), fn.name)
-            else:
-                chk.ob("Q2.latch", inst_id, not cs, "count is not touched away from the detent state (state != 0)",
-                       (cs[0].inst.loc if cs else fn.loc), fn.name)
 
 
 def check_q3(chk, fields):
